@@ -3,6 +3,7 @@ package checks
 import (
 	"fmt"
 	"math/bits"
+	"os"
 	"net"
 	"net/netip"
 
@@ -77,6 +78,15 @@ func c15Split(c *wk.Ctx, b []byte, cut int) {
 }
 
 func runC15(c *wk.Ctx) {
+	if os.Getenv("VERIF_PART") == "concurrent" {
+		// second run of the check, built with the race detector: only the concurrent completions (every header is verified
+		// as always; the detector reports state shared between senders even when no interleaving corrupts a header)
+		for round := int64(0); round < c.N(4, 40); round++ {
+			c.Begin(8_000_000+round, "IP4.concurrent", nil)
+			c15Concurrent(c, 5_000)
+		}
+		return
+	}
 	idx := int64(0)
 	next := func(entry string) bool {
 		idx++
